@@ -32,7 +32,8 @@ def main():
                      out_attr_choices=len(outs), branches='normal, empty-set, missing-value rows')
     ck.outside += ['extra columns of non-object dtype (values are opaque markers in the model)']
     dims = dict(nl=2, nr=2, k=1, kmin=0, missing='sym', allow_missing=[True], allow_empty=[True],
-                out_sim_score=[True, False], out_attrs=outs, col_orders=orders, props=P,
+                out_sim_score=[True, False], out_attrs=outs, col_orders=orders, props=P, r_key='rid',
+                extra_none=[True],
                 validate_every=80, n_jobs=[1, 2] if not quick else [1])
     for e in stages.SET_JOINS:
         cfg = stages.join_cfg(e, **dims)
